@@ -243,10 +243,10 @@ loop:
 			time.Sleep(50 * time.Microsecond)
 		}
 		obs.Parked = allParked()
-		func() {
+		guarded(func() {
 			defer func() { recover() }()
 			qu.Call(lClose, 0)
-		}()
+		})
 	}
 	emitStress(e, false, obs)
 	return lost
